@@ -18,7 +18,7 @@ from checks import c05yin
 LEAN_TARGETS = ["LyModel.Props.C05", "LyModel.Props.C05JsonNum"]
 AUDIT = ["Audit/C05.lean", "Audit/C05Fn.lean"]
 GENERATED = ["Consts", "LexConsts"]
-LEAN_TARGETS += ["LyModel.Props.C05Fn"]; GENERATED += ["FnUtf8"]
+LEAN_TARGETS += ["LyModel.Props.C05Fn", "LyModel.Props.C05FnJson"]; GENERATED += ["FnUtf8", "FnJson"]
 LEAN_TARGETS += ["LyModel.Props.C05XmlLex"]; AUDIT += ["Audit/C05XmlLex.lean"]; GENERATED += ["YinArgs"]   # XML pull lexer (shared model LyModel/XmlLex), YIN stream c05yin     # functions translated from the C source (tools/c2lean.py), bridged in lean/LyModel/Bridge
 ASSUMPTIONS = [
     "the theorems are about the Lean buffer-program models; the models are tied to src/json.c, src/xml.c, src/ly_common.c by the white-box "
@@ -766,7 +766,7 @@ def run_lex_models(cx):
 
 
 def run(cx):
-    from checks import fncomp; fncomp.run_fn(cx, ['utf8'])
+    from checks import fncomp; fncomp.run_fn(cx, ['utf8', 'json'])
     run_jsonnum(cx)
     run_lex_models(cx)
     run_api(cx)
